@@ -185,6 +185,11 @@ def _over_elements(it, ELEMS):
     b = match(("call", ("global", "enumerate"), (V("s"),), ()), it)
     if b:
         return view(b["s"])
+    # a loop by position, `for k in range(len(<such a view>))`: the k-th iteration stands at position k (valueflow.simp reads X[k] of
+    # a one-to-one view X of the same list as X's map of the list's element at that position)
+    b = match(("call", ("global", "range"), (("call", ("global", "len"), (V("s"),), ()),), ()), it)
+    if b:
+        return view(b["s"])
     if it[0] == "call" and it[1] == ("global", "zip") and it[2] and not it[3]:
         return all(view(a) for a in it[2])
     return view(it)
